@@ -38,6 +38,7 @@ from dask_expr._expr import (
     RenameSeries,
     ResetIndex,
     ToFrame,
+    _length_determining_input,
     determine_column_projection,
     plain_column_projection,
 )
@@ -1004,13 +1005,18 @@ class Len(Reduction):
         from dask_expr.io.io import IO
 
         # We introduce Index nodes sometimes.  We special case around them.
-        if isinstance(self.frame, Index) and self.frame.frame._is_length_preserving:
+        if (
+            isinstance(self.frame, Index)
+            and self.frame.frame._is_length_preserving
+            and _length_determining_input(self.frame.frame) is not None
+        ):
             return Len(self.frame.frame)
 
         # Pass through Elemwises, unless we just introduced an Index
         if self.frame._is_length_preserving and not isinstance(self.frame, Index):
-            child = max(self.frame.dependencies(), key=lambda expr: expr.npartitions)
-            return Len(child)
+            child = _length_determining_input(self.frame)
+            if child is not None:
+                return Len(child)
 
         # Let the child handle it.  They often know best
         if isinstance(self.frame, IO):
